@@ -344,8 +344,12 @@ impl Monitor<'_> {
         self.run.count("abnormal_inputs", 1);
         {
             // keep the output readable: at most 2 VIOLATION reports per class, the rest is counted
+            let coarse = match o {
+                Outcome::Panic(_) => key.clone(),
+                other => other.class(),
+            };
             let mut g = self.reported.lock().unwrap();
-            let n = g.entry(key).or_insert(0);
+            let n = g.entry(coarse).or_insert(0);
             *n += 1;
             if *n > 2 {
                 self.run.count("abnormal_inputs_not_reported_individually", 1);
@@ -367,14 +371,15 @@ impl Monitor<'_> {
         let sizes: Vec<usize> = inputs.iter().map(|i| i.size()).collect();
         let budget_of = |idx: usize| budget(sizes.get(idx).copied().unwrap_or(0));
         let mut start = 0;
-        let mut reruns: Vec<usize> = vec![];
+        let mut reruns: Vec<(usize, bool)> = vec![]; // (input, was it the executor giving up rather than the budget)
         loop {
             let mut out = vec![];
             let stop = drive(self.env, &file, start, STACK_2M, &budget_of, &mut out);
             for (idx, o) in out {
                 let Some(inp) = inputs.get(idx) else { continue };
                 if matches!(o, Outcome::NoWake(_)) {
-                    reruns.push(idx);
+                    self.run.count("executor_gave_up_once", 1);
+                    reruns.push((idx, true));
                 } else {
                     self.record(inp, &o);
                 }
@@ -391,7 +396,7 @@ impl Monitor<'_> {
                 Stop::Overrun(idx) => {
                     self.run.count("child_restarts", 1);
                     self.run.count("budget_overruns", 1);
-                    reruns.push(idx);
+                    reruns.push((idx, false));
                     start = idx + 1;
                 }
                 Stop::Harness(e) => {
@@ -403,7 +408,7 @@ impl Monitor<'_> {
                 break;
             }
         }
-        for idx in reruns {
+        for (idx, nowake) in reruns {
             let inp = &inputs[idx];
             let mut slow = false;
             // the first attempt already happened inside the batch
@@ -411,7 +416,12 @@ impl Monitor<'_> {
                 Ok(o) => {
                     if o.is_clean() {
                         self.run.count("slow_inputs", 1);
-                        self.run.note(&format!("slow input (overran its budget once, completed alone): {}", vh_core::run::truncate(&inp.describe(), 300)));
+                        let why = if nowake {
+                            "vsched::block_on stopped waiting for a wake-up from the blocking pool under load"
+                        } else {
+                            "overran its budget"
+                        };
+                        self.run.note(&format!("slow input ({why} once, completed when re-run alone): {}", vh_core::run::truncate(&inp.describe(), 300)));
                     }
                     // an overrun of the 120 s attempt is the second one
                     self.record(inp, &o);
